@@ -4,6 +4,11 @@ package c14
 // passed to a save - the node signs a header it has already saved once - and the objects a read returned, and neither
 // may change what a later read returns. Every save therefore hands the store private copies and overwrites them right
 // after the call; every object a read returned is overwritten once it has been judged.
+//
+// Metadata and state values come out of buffers the caller keeps (callerBufs): "var buf [8]byte; PutUint64(buf[:], h);
+// SetMetadata(key, buf[:])" in a loop is how a height is usually written. Successive values of one key therefore share
+// a backing array whose contents the caller changes between the calls - and scribbles on right after each call - and
+// a store that remembers the slice it was given instead of its contents compares the next value with itself.
 
 import (
 	"bytes"
@@ -86,4 +91,77 @@ func scribbleSignature(s *types.Signature) {
 	if s != nil {
 		flip(*s)
 	}
+}
+
+// callerBufs are the buffers one caller (one run of a sequence, across reopens) encodes metadata and state values
+// into: one per metadata key, one per byte-string field of the state. Values above maxReusedValue are handed over as
+// they are (they are built once per sequence and shared by its replays).
+type callerBufs struct {
+	meta            map[string][]byte
+	appHash, lastRH []byte
+	// reused counts the SetMetadata calls whose value had the length of, and other contents than, the previous one of the key
+	reused int64
+	last   map[string][]byte
+}
+
+const maxReusedValue = 4096
+
+func newCallerBufs() *callerBufs {
+	return &callerBufs{meta: map[string][]byte{}, last: map[string][]byte{}}
+}
+
+// into copies v into the buffer *buf (grown like append grows a slice: a new, larger array when it does not fit) and
+// returns the window holding it. nil stays nil.
+func into(buf *[]byte, v []byte) []byte {
+	if v == nil {
+		return nil
+	}
+	if cap(*buf) < len(v) {
+		*buf = make([]byte, 2*len(v)+8)
+	}
+	out := (*buf)[:len(v)]
+	copy(out, v)
+	return out
+}
+
+// metaValue returns the value of a setmeta operation the way a caller with one buffer per key would hand it over.
+func (c *callerBufs) metaValue(key string, v []byte) []byte {
+	if c == nil || len(v) > maxReusedValue {
+		return v
+	}
+	if prev, ok := c.last[key]; ok && len(prev) == len(v) && !bytes.Equal(prev, v) {
+		c.reused++
+	}
+	c.last[key] = v
+	b := c.meta[key]
+	out := into(&b, v)
+	c.meta[key] = b
+	return out
+}
+
+// stateValue does the same for the byte-string fields of a state.
+func (c *callerBufs) stateValue(st types.State) types.State {
+	if c == nil {
+		return st
+	}
+	if len(st.AppHash) <= maxReusedValue {
+		st.AppHash = into(&c.appHash, st.AppHash)
+	}
+	if len(st.LastResultsHash) <= maxReusedValue {
+		st.LastResultsHash = into(&c.lastRH, st.LastResultsHash)
+	}
+	return st
+}
+
+// scribble overwrites what the caller's buffers hold (after a call returned).
+func (c *callerBufs) scribble(key string) {
+	if c == nil {
+		return
+	}
+	if key != "" {
+		flip(c.meta[key][:cap(c.meta[key])])
+		return
+	}
+	flip(c.appHash[:cap(c.appHash)])
+	flip(c.lastRH[:cap(c.lastRH)])
 }
